@@ -583,8 +583,11 @@ def check_span_judgement_width(fx, rep, rule):
             return False
 
         conds = [(T.term(cond, env, mutated), holds) for cond, holds in T.path_conditions(ps, c)]
-        for st in T.entailed_atoms(conds):
-            if isinstance(st, tuple) and st[0] == "bin" and st[1] == "Eq":
+        eqs = [st for st in T.entailed_atoms(conds) if isinstance(st, tuple) and st[0] == "bin" and st[1] == "Eq"]
+        # `if span.size != w { return conflict }` in front: the inequality is known to be false here
+        eqs += [st for st in T.entailed_atoms(conds, want_false=True) if isinstance(st, tuple) and st[0] == "bin" and st[1] == "Ne"]
+        for st in eqs:
+            if True:
                 for side, other in ((st[2], st[3]), (st[3], st[2])):
                     x = side
                     while isinstance(x, tuple) and x[0] in ("ref", "deref") and len(x) > 1:
